@@ -61,6 +61,9 @@ let zero_at = fun (_ : nat) -> z0
 
 (* leaf hypothesis of the C02 theorems: offsets non-decreasing, >= 0 and bounded by the duration *)
 let leaf_hyp_ok = ref true
+let leaf_hyp_why = ref ""
+(* what the clause "every token of a part lies within the part's window, times never decrease" fails on *)
+let leaf_bad () = "BAD:part-tokens-outside-window-or-decreasing " ^ !leaf_hyp_why
 
 let rec cfg_of (t : tnode) : cfg =
   match t.kind, t.p with
@@ -69,7 +72,14 @@ let rec cfg_of (t : tnode) : cfg =
       let dur = z_of_string (List.nth t.p (List.length t.p - 1)) in
       let arr = Array.of_list (List.map z_of_string t.tbl) in
       Array.iteri (fun k x ->
-        if zlt x z0 || zlt dur x || (k > 0 && zlt x arr.(k - 1)) then leaf_hyp_ok := false) arr;
+        let bad why =
+          if !leaf_hyp_ok then begin
+            leaf_hyp_ok := false;
+            leaf_hyp_why := Printf.sprintf "%s:%s token %d at +%s %s" t.kind (String.concat ":" t.p) k (zs x) why
+          end in
+        if zlt x z0 then bad "before the start of its part"
+        else if zlt dur x then bad ("after the finish of its part +" ^ zs dur)
+        else if k > 0 && zlt x arr.(k - 1) then bad ("earlier than the token before it +" ^ zs arr.(k - 1))) arr;
       let at = fun (k : nat) -> let k = int_of_nat k in if k < Array.length arr then arr.(k) else z0 in
       CDoAt (nat_of_int (Array.length arr), dur, at)
   | "unl", [d] -> CUnlim (z_of_string d)
@@ -184,7 +194,7 @@ let seq_case (tree : string) (ops : string) (obs : string) : string * string * b
   in
   let nparts = List.length (flatten_cfg c) in
   let v =
-    if not !leaf_hyp_ok then "BAD:leaf-offsets-not-monotone-or-beyond-duration"
+    if not !leaf_hyp_ok then leaf_bad ()
     else if obs = spec then "ok"
     else begin
       (* name the first differing field *)
